@@ -6,6 +6,8 @@ functions marked inline); every assert-like point becomes one named obligation.
 """
 import ast
 import itertools
+import os
+import sys
 import time
 
 import z3
@@ -183,6 +185,7 @@ class State:
         self.pc = []
         self.path = []
         self.fresh_objs = set()
+        self.facts = {}       # name -> latest assumed clause of that name (requires, invariants, proven hints)
 
     def copy(self):
         s = State()
@@ -192,12 +195,16 @@ class State:
         s.pc = list(self.pc)
         s.path = list(self.path)
         s.fresh_objs = set(self.fresh_objs)
+        s.facts = dict(self.facts)
         return s
 
-    def assume(self, t):
+    def assume(self, t, name=None):
         if t is True:
             return
-        self.pc.append(L.to_z3_bool(t))
+        t = L.to_z3_bool(t)
+        self.pc.append(t)
+        if name is not None:
+            self.facts[name] = t
 
 
 def merge_values(c, a, b):
@@ -251,13 +258,30 @@ def merge_states(c, a, b, base_pc_len):
     while k < len(a.path) and k < len(b.path) and a.path[k] is b.path[k]:
         k += 1
     s.path = list(a.path[:k])
+    s.facts = {}
+    for k in set(a.facts) | set(b.facts):
+        fa, fb = a.facts.get(k), b.facts.get(k)
+        if fa is not None and fb is not None and fa.get_id() == fb.get_id():
+            s.facts[k] = fa
+        else:      # known on one arm only (or differently): the clause guarded by the arm's condition
+            parts = []
+            if fa is not None:
+                parts.append(z3.Implies(c, fa))
+            if fb is not None:
+                parts.append(z3.Implies(z3.Not(c), fb))
+            s.facts[k] = z3.And(*parts) if len(parts) > 1 else parts[0]
     s.pc = list(a.pc[:base_pc_len])
     ea = a.pc[base_pc_len:]
     eb = b.pc[base_pc_len:]
-    if ea:
-        s.pc.append(z3.Implies(c, z3.And(*ea) if len(ea) > 1 else ea[0]))
-    if eb:
-        s.pc.append(z3.Implies(z3.Not(c), z3.And(*eb) if len(eb) > 1 else eb[0]))
+    # the facts gathered on each arm, guarded by the arm's condition: the quantifier-free ones together, the quantified
+    # ones one by one (focused obligations pick the ground facts and named clauses only)
+    for cond, es in ((c, ea), (z3.Not(c), eb)):
+        ground = [e for e in es if not _has_quantifier(e)]
+        if ground:
+            s.pc.append(z3.Implies(cond, z3.And(*ground) if len(ground) > 1 else ground[0]))
+        for e in es:
+            if _has_quantifier(e):
+                s.pc.append(z3.Implies(cond, e))
     for name in sorted(set(a.locals) | set(b.locals)):
         va = a.locals.get(name, UNBOUND)
         vb = b.locals.get(name, UNBOUND)
@@ -490,6 +514,21 @@ def _relevant(assumptions, goal, rounds=2):
     return [a for a, c in zip(assumptions, chosen) if c]
 
 
+def _has_quantifier(t):
+    seen = set()
+    stack = [t]
+    while stack:
+        x = stack.pop()
+        if x.get_id() in seen:
+            continue
+        seen.add(x.get_id())
+        if z3.is_quantifier(x):
+            return True
+        if z3.is_app(x):
+            stack.extend(x.children())
+    return False
+
+
 def solve(ob, timeout_ms=20000):
     t0 = time.time()
     g = ob.goal
@@ -513,58 +552,78 @@ def solve(ob, timeout_ms=20000):
         return ob
     if g is False:
         g = z3.BoolVal(False)
-    # stage 0: relevance filters - only the assumptions that share (non-ubiquitous) symbols with the goal, one round,
-    # then two rounds of closure.  Dropping assumptions is sound, and it keeps the (heavily quantified) posts of
-    # unrelated callees out of the instantiation engine.
-    alla = list(getattr(ob, "defs", [])) + list(ob.assumptions)
-    tried = set()
-    for rounds in (1, 2):
-        try:
-            rel = _relevant(alla, g, rounds=rounds)
-        except Exception:
-            rel = None
-        if rel is None or len(rel) >= len(alla) or len(rel) in tried:
-            continue
-        tried.add(len(rel))
-        s = z3.Solver()
-        s.set("timeout", max(2000, timeout_ms // 5))
-        s.set("auto_config", False)
-        s.set("smt.mbqi", False)
-        for a in rel:
-            s.add(a)
-        s.add(z3.Not(g))
-        if s.check() == z3.unsat:
-            ob.seconds = time.time() - t0
-            ob.status = "unsat"
-            ob.solver = "z3-" + z3.get_version_string() + "/ematching+relevance%d" % rounds
-            return ob
-    # portfolio: E-matching only first (fast and stable), then z3's default configuration (MBQI on)
+    # Portfolio.  Every stage only DROPS assumptions or changes the search (sound); `unsat` from any stage discharges the
+    # obligation.  Quantifier instantiation is chaotic (the same query goes through in 0.1 s or not in 10 s depending on
+    # the seed), so several short attempts beat one long one:
+    #   focus      ground facts + the clauses named by the contract (or the invariant itself and the frame)
+    #   full       everything, E-matching only
+    #   relevance  assumptions sharing non-ubiquitous symbols with the goal (1 / 2 rounds of closure)
+    #   mbqi       z3's default configuration (model-based instantiation on)
+    defs = list(getattr(ob, "defs", []))
+    alla = defs + list(ob.assumptions)
+    scale = timeout_ms / 20000.0
+    rel_cache = {}
+
+    def relevant(rounds):
+        if rounds not in rel_cache:
+            try:
+                rel = _relevant(alla, g, rounds=rounds)
+            except Exception:
+                rel = None
+            if rel is not None and (len(rel) >= len(alla) or any(r is not None and len(r) == len(rel)
+                                                                   for r in rel_cache.values())):
+                rel = None
+            rel_cache[rounds] = rel
+        return rel_cache[rounds]
+
+    stages = []
+    if getattr(ob, "focus", None):
+        stages += [("focus", False, 1500, 0), ("focus", False, 3000, 3)]
+    stages += [("full", False, 1500, 0), ("relevance1", False, 2000, 0), ("relevance2", False, 3000, 0),
+               ("full", False, 2000, 1), ("full", False, 3000, 2), ("relevance2", False, 4000, 4),
+               ("full", False, 5000, 7), ("mbqi", True, 10000, 0), ("full", False, 10000, 11), ("mbqi", True, 20000, 5)]
     r = z3.unknown
-    for (mbqi, tmo, seed) in ((False, max(2000, timeout_ms // 4), 0), (True, timeout_ms // 2, 0),
-                              (False, timeout_ms // 2, 11), (True, timeout_ms, 5)):
+    for (what, mbqi, tmo, seed) in stages:
+        if what == "focus":
+            facts = defs + list(ob.focus)
+        elif what.startswith("relevance"):
+            facts = relevant(int(what[-1]))
+            if facts is None:
+                continue
+        else:
+            facts = alla
         s = z3.Solver()
-        s.set("timeout", tmo)
+        s.set("timeout", max(1000, int(tmo * scale)))
         if seed:
             s.set("smt.random_seed", seed)
         if not mbqi:
             s.set("auto_config", False)
             s.set("smt.mbqi", False)
-        for a in getattr(ob, "defs", []):
-            s.add(a)
-        for a in ob.assumptions:
+        for a in facts:
             s.add(a)
         s.add(z3.Not(g))
+        t1 = time.time()
         r = s.check()
-        ob.solver = "z3-" + z3.get_version_string() + ("/ematching" if not mbqi else "/default")
+        if os.environ.get("PYVC_TRACE"):
+            sys.stderr.write("  [trace] %s %s seed=%d %d/%d: %s %.1fs\n"
+                             % (ob.name, what, seed, len(facts), len(alla), r, time.time() - t1))
+        ob.solver = "z3-" + z3.get_version_string() + "/" + ("default" if mbqi else "ematching" +
+                                                             ("" if what == "full" else "+" + what))
         if r == z3.unsat:
             break
-        if r == z3.sat:
+        if r == z3.sat and facts is alla:
+            # a model of the negated goal over the FULL context (a subset proves nothing when it is satisfiable)
             try:
                 ob.model = s.model()
             except z3.Z3Exception:
                 pass
             break
-        ob.reason = s.reason_unknown()
+        if r == z3.sat:
+            r = z3.unknown
+        try:
+            ob.reason = s.reason_unknown()
+        except z3.Z3Exception:
+            pass
     ob.seconds = time.time() - t0
     ob.status = str(r)
     return ob
@@ -676,7 +735,7 @@ class Exec:
 
     # ---------------- obligations
 
-    def oblige(self, st, kind, anchor, clause, goal, node=None):
+    def oblige(self, st, kind, anchor, clause, goal, node=None, using=None):
         base = "%s/%s/%s/%s" % (self.qualname, kind, anchor, clause)
         n = self.obl_names.get(base, 0)
         self.obl_names[base] = n + 1
@@ -694,10 +753,24 @@ class Exec:
                 text = ast.unparse(node).split("\n")[0][:100]
             except Exception:
                 text = ""
+        # `using` names the clauses a proof is expected to need (requires "req.<name>", invariants and hints by name,
+        # callee posts "call.<Class.method>.<post>"): a first, small attempt is made from the ground facts of the
+        # state plus those clauses only (dropping assumptions is sound; it keeps unrelated quantified clauses out of
+        # the instantiation engine).  The full context remains the fall-back, so a wrong list costs time only.
         ob = Obligation(name, kind, g, list(st.pc), lineno, text)
+        ground = None
+        if using is not None:
+            chosen = [st.facts[u] for u in using if u in st.facts]
+            ground = [t for t in st.pc if not _has_quantifier(t)]
+            ob.focus = ground + chosen
+        elif kind == "pres" and clause in st.facts:
+            # most invariants are preserved by themselves plus the frame of the body
+            ground = [t for t in st.pc if not _has_quantifier(t)]
+            ob.focus = ground + [st.facts[clause]] + \
+                       [t for k, t in sorted(st.facts.items()) if k.startswith(("call.", "req."))]
         ob.defs = self.defs
         self.obligations.append(ob)
-        st.assume(g)
+        st.assume(g, name=clause)
         return ob
 
     def ns(self, st, extra=None):
@@ -735,7 +808,7 @@ class Exec:
         self.old = st.copy()
         v = self.ns(st)
         for name, term in c.requires(v):
-            st.assume(term)
+            st.assume(term, name="req." + name)
         if c.defs is not None:
             # definitions of ghost functions (primitive recursion): conservative extensions, assumed at entry
             for name, term in c.defs(v):
@@ -769,8 +842,8 @@ class Exec:
         v = self.ns(st)
         oldv = self.ns(self.old)
         k = 0
-        for name, term in c.ensures(v, oldv, wrap(self, st, result)):
-            self.oblige(st, "post", "ret", name, term)
+        for item in c.ensures(v, oldv, wrap(self, st, result)):
+            self.oblige(st, "post", "ret", item[0], item[1], using=item[2] if len(item) > 2 else None)
         # frame: every field of parameter objects not in modifies must be unchanged
         self.check_frame(st)
 
@@ -849,8 +922,8 @@ class Exec:
         for (a, fnh) in c.hints:
             if a != anchor or not getattr(fnh, "early", True):
                 continue
-            for name, term in fnh(self.ns(st), self.ns(self.old)):
-                self.oblige(st, "hint", anchor, name, term)
+            for item in fnh(self.ns(st), self.ns(self.old)):
+                self.oblige(st, "hint", anchor, item[0], item[1], using=item[2] if len(item) > 2 else None)
         for (a, fna) in getattr(c, "assumes", []):
             if a != anchor:
                 continue
@@ -872,14 +945,18 @@ class Exec:
         for (a, fnh) in getattr(c, "late_hints", []):
             if a != anchor:
                 continue
-            for name, term in fnh(self.ns(st), self.ns(self.old)):
-                self.oblige(st, "hint", anchor, name, term)
+            for item in fnh(self.ns(st), self.ns(self.old)):
+                self.oblige(st, "hint", anchor, item[0], item[1], using=item[2] if len(item) > 2 else None)
         for (a, src) in c.ghost:
             if a != anchor:
                 continue
             for stmt in ast.parse(src).body:
                 self.check_ghost_stmt(stmt)
-                outs = self.exec_stmt(st, stmt)
+                self._in_ghost = True        # ghost conditionals are always merged (one state out)
+                try:
+                    outs = self.exec_stmt(st, stmt)
+                finally:
+                    self._in_ghost = False
                 if len(outs) != 1 or outs[0][1] != "next":
                     raise Unsupported("ghost code must be straight-line")
                 if outs[0][0] is not st:
@@ -1071,7 +1148,7 @@ class Exec:
         rest = [o for o in oa + ob if o[1] != "next"]
         has_loop = any(isinstance(x, (ast.While, ast.For)) for b in (stmt.body, stmt.orelse) for y in b
                        for x in ast.walk(y))
-        if len(na) == 1 and len(nb) == 1 and not has_loop and not (self.contract.split and not self.cur_fn_stack):
+        if len(na) == 1 and len(nb) == 1 and not has_loop and not (self.contract.split and not self.cur_fn_stack and not getattr(self, '_in_ghost', False)):
             # drop the branch condition itself from the extras (it is re-expressed by the implication)
             try:
                 m = merge_states(cond, na[0][0], nb[0][0], base_len)
@@ -1222,8 +1299,8 @@ class Exec:
                 out += spec.inv(self.ns(s), oldv, self.ns(entry))
             return out
         # 1. invariants hold on entry
-        for name, term in invs(st):
-            self.oblige(st, "entry", anchor, name, term, stmt)
+        for item in invs(st):
+            self.oblige(st, "entry", anchor, item[0], item[1], stmt)
         # 2. havoc everything the body may modify
         saved_counter = self.loop_counter
         mods_locals, mods_heap = self.modset(st, body, stmt)
@@ -1232,8 +1309,8 @@ class Exec:
         hs = st.copy()
         self.havoc(hs, mods_locals, mods_heap)
         # 3. assume invariants
-        for name, term in invs(hs):
-            hs.assume(term)
+        for item in invs(hs):
+            hs.assume(item[1], name=item[0])
         dec0 = None
         if spec is not None and spec.decreases is not None:
             dec0 = spec.decreases(self.ns(hs))
@@ -1262,8 +1339,10 @@ class Exec:
                 if kind in ("next", "continue"):
                     if advance:
                         advance(s2)
-                    for name, term in invs(s2):
-                        self.oblige(s2, "pres", anchor, name, term, stmt)
+                    for item in invs(s2):
+                        # an invariant may name the clauses its preservation is proved from (focused obligation)
+                        self.oblige(s2, "pres", anchor, item[0], item[1], stmt,
+                                    using=item[2] if len(item) > 2 else None)
                     if dec0 is not None:
                         d1 = spec.decreases(self.ns(s2))
                         self.oblige(s2, "pres", anchor, "decreases", L.conj(L.ge(dec0, 0), L.lt(d1, dec0)), stmt)
@@ -2357,8 +2436,11 @@ class Exec:
         post_ns = NS(self, st, {k: wrap(self, st, v) for k, v in binding.items()}, "call_post", cc)
         if rty:
             result = self.fresh_param(st, "ret." + short, rty)
-        for name, term in c.ensures(post_ns, pre_ns, wrap(self, st, result)):
-            st.assume(term)
+        for item in c.ensures(post_ns, pre_ns, wrap(self, st, result)):
+            name, term = item[0], item[1]
+            if name in c.certificate:
+                continue      # a caller may always forget a post; these are large and no caller needs them
+            st.assume(term, name="call.%s.%s" % (short, name))
         return result
 
     def rel_line(self, node):
